@@ -269,13 +269,38 @@ def _exec(prog, cfg, state, op, seed):
     if op[0] == "reset":
         env.reset(seed=seed)
         o = HE.to_plain(env.agent.observation_manager.current_observation)
-        return HE.sha(repr(o)), {"obs": o}
+        return HE.sha(repr(o)), {"obs": o, "mask_bad": _mask_bad(env)}
     if op[0] == "step":
         r = env.step(0)
-        return step_digest(env, r), explain(env, r)
+        x = explain(env, r)
+        x["mask_bad"] = _mask_bad(env)
+        return step_digest(env, r), x
     if op[0] == "close":
         env.close()
         return None, None
+
+
+def _mask_bad(env):
+    """Entries of THIS instance's mask that disagree with an independent walk of THIS instance's request tree for the requests of
+    THIS instance's action map (the solo reference of a comparison lives in the same process as the interleaved run, so a
+    process-wide cache would spoil both alike; this reference cannot be spoilt)."""
+    if not env.agent.config.agent_settings.action_masking:
+        return []
+    from .c11 import walk
+
+    mask = [int(x) for x in env.action_masks()]
+    rm = env.game.simulation._request_manager
+    am = env.agent.action_manager
+    bad = []
+    if len(mask) != len(am.action_map):
+        return ["length %d for %d actions" % (len(mask), len(am.action_map))]
+    for i, a in am.action_map.items():
+        w = walk(rm, list(am.form_request(action_identifier=a[0], action_options=a[1])))
+        if mask[i] != (1 if w[0] == "handler" else 0):
+            bad.append((i, a[0], mask[i], w[0]))
+            if len(bad) >= 3:
+                break
+    return bad
 
 
 _SOLO = {}
@@ -314,6 +339,13 @@ def instance_item(item):
             got_b.append(_exec(pb, cb, sb, pb[ib], 22))
             ib += 1
     viols = []
+    for who, runs, progx in (("A", got, pa), ("B", got_b, pb)):
+        for t, g in enumerate(runs):
+            if g and g[1] and g[1].get("mask_bad"):
+                viols.append(violation("instance_unaffected_by_other_instance", "pair=%s:instance=%s:mask-of-another-instance" % (pair, who),
+                                       "pair %s interleaving %s: %s's operation %d (%s): its action mask disagrees with its own request tree "
+                                       "for its own action map: %s" % (pair, "".join(order), who, t, progx[t], g[1]["mask_bad"])))
+                break
     if [g[0] for g in got_b] != [x[0] for x in solo_b]:
         t = next(i for i, (x, y) in enumerate(zip(got_b, solo_b)) if x[0] != y[0])
         d = first_diff(solo_b[t][1], got_b[t][1])
